@@ -74,7 +74,9 @@ def requests(cfg, rng, n, tier, part, nparts, st):
         return
     for k in range(n):
         r = rng.random()
-        if r < 0.35:
+        if r < 0.10:
+            a = gen.periodic(cfg, rng)
+        elif r < 0.35:
             a = lead_trail(cfg, rng)
         elif r < 0.55:
             a = gen.sparse(cfg, rng)
